@@ -72,6 +72,10 @@ def rule_r1(ctx):
             n = nxt[0]
         raise AnalysisError("the exclusion prefix of Adjustments.__init__ does not end")
     tests_seen = {id(n.ast) for n in g.nodes if n.kind == "test" and isinstance(n.ast, ast.Compare) and isinstance(n.ast.ops[0], ast.In) and (pat.match(norm(n.ast)) and pat.match(norm(n.ast)).group(1) in GROUPS)}
+    if not tests_seen:
+        # no `'x' in kw` test at all: the exclusions are written in a form this rule does not read (a table, a helper
+        # taking the names as data); saying "25 of 32 rows wrong" would be a guess
+        raise AnalysisError("the mutual-exclusion checks of Adjustments.__init__ are not written as `'x' in kw` tests: not decided")
     ctx.r.floor(rid, len(tests_seen), 6, "`'x' in kw` tests on the exclusive option groups")
     bad_rows = []
     rows = 0
@@ -655,7 +659,45 @@ def rule_r11(ctx, rid="C20.R11"):
     ctx.r.floor(rid, npass, 1, "calls of the selected pass in wasyncore.loop")
 
 
-RULES = [rule_r1, rule_r2, rule_r3, rule_r4, rule_r5, rule_r6, rule_r7, rule_r9, rule_r10, rule_r11]
+def rule_r12(ctx, rid="C20.R12"):
+    ctx.r.rule(rid, "documented meanings of two settings are kept where they are consumed: a `listen` entry is resolved for *binding* (getaddrinfo with AI_PASSIVE, so that '*' means every address and not loopback), and the loop timeout - seconds - is handed to select() unchanged and to poll() multiplied by 1000")
+    p = ctx.p
+    f = _init(ctx)
+    calls = [c for c in ast.walk(f.node) if isinstance(c, ast.Call) and (dotted(c.func) or "").endswith("getaddrinfo")]
+    ctx.r.floor(rid, len(calls), 1, "getaddrinfo calls resolving listen entries")
+    for c in calls:
+        flags = c.args[5] if len(c.args) > 5 else next((k.value for k in c.keywords if k.arg == "flags"), None)
+        if flags is not None and any((dotted(x) or "").endswith("AI_PASSIVE") for x in ast.walk(flags)):
+            ctx.r.ok(rid, "listen entries are resolved with AI_PASSIVE", f.loc(c))
+        else:
+            ctx.r.violation(rid, key_of(f, None, "listen-not-passive"), "getaddrinfo is called without AI_PASSIVE: the documented wildcard `*` (host None) resolves to the loopback address instead of every address - the setting is accepted and not applied as documented", f.loc(c))
+    # the two passes
+    for q, unit in (("wasyncore.poll", 1), ("wasyncore.poll2", 1000)):
+        pf = p.func(q)
+        g = cfg_of(pf)
+        tp = pf.params[0]
+        waits = [(n, c) for n, c in find_calls(g, lambda c: isinstance(c.func, ast.Attribute) and c.func.attr in ("select", "poll") and c.args)]
+        waits = [(n, c) for (n, c) in waits if not (c.func.attr == "poll" and dotted(c.func.value) == "select")]
+        if not waits:
+            raise AnalysisError("anchor vanished: the blocking wait of %s" % q)
+        for n, c in waits:
+            a = c.args[-1] if c.func.attr == "select" else c.args[0]
+            e = a
+            if isinstance(e, ast.Name):
+                ds = [m for m in g.nodes if m.kind == "stmt" and isinstance(m.ast, ast.Assign) and any(isinstance(t, ast.Name) and t.id == e.id for t in m.ast.targets)]
+                e = ds[-1].ast.value if ds else e
+            txt = norm(e).replace(" ", "")
+            if unit == 1:
+                good = isinstance(a, ast.Name) and a.id == tp and not [m for m in g.nodes if m.kind == "stmt" and isinstance(m.ast, (ast.Assign, ast.AugAssign)) and any(isinstance(t, ast.Name) and t.id == tp and isinstance(t.ctx, ast.Store) for t in ast.walk(m.ast))]
+            else:
+                good = txt in ("int(%s*1000)" % tp, "int(1000*%s)" % tp, "%s*1000" % tp, "1000*%s" % tp)
+            if good:
+                ctx.r.ok(rid, "%s waits for %s" % (q, "the timeout as given (seconds)" if unit == 1 else "timeout * 1000 (milliseconds)"), pf.loc(c))
+            else:
+                ctx.r.violation(rid, key_of(pf, None, "loop-timeout-unit"), "%s waits for `%s`: asyncore_loop_timeout is documented in seconds, %s" % (q, norm(e)[:50], "select() takes seconds" if unit == 1 else "poll() takes milliseconds - the seconds must be multiplied by 1000"), pf.loc(c))
+
+
+RULES = [rule_r1, rule_r2, rule_r3, rule_r4, rule_r5, rule_r6, rule_r7, rule_r9, rule_r10, rule_r11, rule_r12]
 
 from ..selftest import M, T, V  # noqa: E402
 
